@@ -318,7 +318,7 @@ def st_history(draw, gp2=False, big_ok=True, allow=(), force=None):
 class Run:
     """one history: the objects under test + the numpy model + what both have been told so far"""
 
-    def __init__(self, case, ctx, root, order=None, sys_order=None):
+    def __init__(self, case, ctx, root, order=None):
         self.case, self.ctx = case, ctx
         self.nk = len(case["kernels"])
         self.order = list(range(self.nk)) if order is None else order
@@ -646,12 +646,10 @@ class Run:
         nb1 = float(np.sum(np.abs(beta)))
         floor = sol["dpred"] + sol["dK"] * nb1 + sol["dy"] + sum(
             float(np.max(sol["dKmn"][ik])) * float(np.sum(np.abs(alphas[ik]))) for ik in range(self.nk))
-        ctx.measure("floor_over_1e-8_pred", floor / (1e-8 * scale))
         fr = floor / (1e-8 * scale)
         ctx.event("prediction_tolerance(relative): " + ("1e-8" if fr <= 1 else "<=1e-6" if fr <= 100 else "<=1e-4" if fr <= 1e4 else ">1e-4 (tiny noise / ill-conditioned)"))
         rawerr = float(np.max(np.abs(pred_code - pred_model)))
-        ctx.measure("raw_pred_err_over_1e-8", rawerr / (1e-8 * scale))
-        ctx.measure("raw_pred_err_over_floor", rawerr / (floor + 1e-300))
+        ctx.measure("prediction_error_over_rounding_floor", rawerr / (floor + 1e-300))
         ctx.close(pred_code, pred_model, ("alpha_prediction_space", tagx, modes), rtol=1e-8, atol=floor, scale=scale,
                   cond_mm=sol["cond_mm"], cond_K=sol["cond_K"])
         # (2) residual law: K_cov alpha_mol - y = -(Sigma_noise + eps I) alpha_mol
@@ -666,7 +664,6 @@ class Run:
             rhs = sol["x0sq"] * (Kmn @ bt)
             mag = float(np.max(np.abs(Kj) @ np.abs(alphas[ik]))) + sol["x0sq"] * float(np.max(np.abs(Kmn) @ np.abs(bt)))
             fl = sol["x0sq"] * (float(np.max(np.sum(np.abs(Kmn), axis=1))) * amp + float(sol["dKmn"][ik] @ np.abs(bt)))
-            ctx.measure("backward_floor_over_1e-9", fl / (1e-9 * mag + 1e-300))
             ctx.close(lhs, rhs, ("linear_system_backward_error", tagx, self.mode_of(ik)), rtol=1e-9, atol=fl, scale=mag)
         # the same with the reaction weights the model stores (alpha_mol_): no amplification, sharp at any noise level
         bh = np.asarray(self.gp.alpha_mol_, dtype=float)
@@ -708,6 +705,8 @@ class Run:
         tagx = "fit()" if x is None else "fit(x,sigma_min)"
         self.compare_fit(sol, tagx)
         self.lastfit = sol
+        self.lastfit_args = (x, smin)
+        self.lastfit_rxns = list(self.hs.rxns)
         self.hs.fitted = True
         # metamorphic (code vs code): same reaction multiset + same arguments => same weights
         key = (sorted(_canon(r) for r in self.hs.rxns), None if x is None else (list(x), smin))
@@ -769,7 +768,6 @@ class Run:
         bl = V @ ((V.T @ y) / lam)
         tol_floor = (xe[0] ** 2 * f["dK"] + 300 * U * n * float(lam[-1])) * (float(bl @ bl) + n / float(lam[0])) \
             + 2 * float(np.sum(np.abs(bl))) * f["dy"]
-        ctx.measure("floor_over_1e-8_lik", tol_floor / (1e-8 * (abs(quad) + abs(logdet) + n)))
         ctx.close(got, want, ("likelihood", "default_args" if x is None else "x,sigma_min"), rtol=1e-8, atol=tol_floor,
                   scale=abs(quad) + abs(logdet) + n, cond=cnd)
         ctx.event("likelihood_checked")
@@ -950,8 +948,6 @@ def final_fresh(case, ctx, run, root):
     nk = len(case["kernels"])
     order = list(range(nk))[::-1]
     comps = [case["kernels"][ik]["component"] for ik in order]
-    # the fresh model stores everything with one (list-valued) derivative flag equivalent to the union of the history
-    nsys = len(case["systems"])
     r2 = Run(case, ctx, root, order=order)
     # replay stores per original op (same flags), systems reversed inside each call
     for op in case["ops"]:
@@ -961,20 +957,18 @@ def final_fresh(case, ctx, run, root):
                 ctx.event("fresh_skipped(excluded region: c-kernel first with get_correlation=False)")
                 return
             r2.op_store(op2)
-    rx = list(run.hs.rxns)
+    rx = list(run.lastfit_rxns)
     perm = rng_from(case["seed"] + 17).permutation(len(rx))
     r2.op_add([rx[i] for i in perm])
     if len(r2.hs.rxns) != len(rx):
         ctx.event("fresh_skipped(reaction not addable)")
         return
-    # the last fit op's arguments
-    last = [op for op in case["ops"] if op["op"] == "fit"][-1]
-    x = None if last.get("x") is None else np.array(last["x"], dtype=float)
+    x, smin = run.lastfit_args
     with quiet():
         if x is None:
             r2.gp.fit()
         else:
-            r2.gp.fit(x=x, sigma_min=last["smin"])
+            r2.gp.fit(x=x.copy(), sigma_min=smin)
     sol = run.lastfit
     for ik in range(nk):
         a1 = np.asarray(run.dk[ik].alpha)
